@@ -203,6 +203,14 @@ int main(int argc, char** argv)
             // all placements of <= dev deviations over the first W pwrite calls, kinds {short by 1, one byte, zero}
             std::vector<int> pos;
             std::vector<int> kind;
+            // three consecutive stalls (0 bytes written) inside one packet: the writer's retry budget; it may give up (the append then
+            // fails and the file is not judged) but must not report bytes as written that were not
+            if (cycles == 1)
+                for (int p1 = 0; p1 < r0.writes; ++p1) {
+                    Run r = b; r.plan.assign(p1 + 3, W_FULL); r.plan[p1] = r.plan[p1 + 1] = r.plan[p1 + 2] = W_ZERO;
+                    Result res = execute(r, false); ++runs; ++short_runs; if (!res.write_failed) ++judged;
+                    note(r, res);
+                }
             // 1 deviation
             for (int p1 = 0; p1 < W && dev >= 1; ++p1)
                 for (int k1 = W_SHORT_BY_1; k1 <= W_ZERO; ++k1) {
